@@ -326,7 +326,7 @@ func (c *Checker) Check(st *State) {
 		if rl > far {
 			far = rl
 		}
-		if 2*far+1 < M {
+		if 2*far+1 < M && M <= 64 {
 			if cap(c.acore) < int(M) {
 				c.acore = make([]g.Instruction, M)
 			}
